@@ -357,6 +357,22 @@ def other_table_sites(tree, helper_names=()):
     allowed = {("server.py", "Daemon", "__init__"), ("server.py", "Daemon", "_getInstance"),
                ("socketutil.py", "SocketConnection", "__init__"), ("socketutil.py", "SocketConnection", "close")}
     allowed |= {("server.py", "Daemon", h) for h in helper_names}     # private helpers _getInstance delegates to
+    # private helpers SocketConnection.close() delegates to (its net effect on the table is established by close_clears)
+    sumod, _ = parse(tree, "Pyro5/socketutil.py")
+    sc = find_class(sumod, "SocketConnection")
+    meths = {n.name: n for n in sc.body if isinstance(n, ast.FunctionDef)}
+    reach, frontier = set(), [meths["close"]] if "close" in meths else []
+    for _ in range(3):
+        nxt = []
+        for f in frontier:
+            for n in ast.walk(f):
+                if isinstance(n, ast.Call) and isinstance(n.func, ast.Attribute) and isinstance(n.func.value, ast.Name) \
+                        and n.func.value.id == "self" and n.func.attr in meths and n.func.attr not in reach \
+                        and n.func.attr not in ("close", "__init__"):
+                    reach.add(n.func.attr)
+                    nxt.append(meths[n.func.attr])
+        frontier = nxt
+    allowed |= {("socketutil.py", "SocketConnection", h) for h in reach}
     names = {"_pyroInstances", "pyroInstances"}
     sites = []
     files = sorted(glob.glob(os.path.join(tree, "Pyro5", "**", "*.py"), recursive=True))
